@@ -17,7 +17,8 @@ from secsgem.secs import variables as V
 
 logging.disable(logging.CRITICAL)
 
-WAIT = 8.0  # bound of every wait on the real threads (seconds)
+WAIT = 60.0  # bound of every wait on the real threads (seconds): generous, the machine may be heavily loaded; every expiry is a
+             # RuntimeError (check broken, exit 2), never an observation "it did not happen"
 
 
 def private_driver():
